@@ -11,7 +11,8 @@
 (*   op   family            ("insert", "replace", "find", ...)                              *)
 (*   tk   how the target range / position is passed  ("idx", "it", "pos_cnt", "it_it", ...) *)
 (*   sk   how the source / needle is passed ("cstr", "str_pos_cnt", "fs", "cnt_ch", ...)    *)
-(*        (op, tk, sk) together name the C++ overload that is called                        *)
+(*        (op, tk, sk) together name the C++ overload that is called; the "self*" kinds pass *)
+(*        the object itself / a pointer into its own buffer (self-aliasing sources)         *)
 (*   p1, c1   position and count in this string      (NPos = -1; every negative number is   *)
 (*   p2, c2   position and count in the source        a size_t value >= 2^31, "Big")        *)
 (*   src  the source text as passed (C string, std::string, content of the other            *)
@@ -64,10 +65,11 @@ MinOr(S) == IF S = {} THEN NPos ELSE SetMin(S)
 MaxOr(S) == IF S = {} THEN NPos ELSE SetMax(S)
 Find(x, n, p)  == MinOr({i \in p..(Len(x) - Len(n)) : MatchAt(x, n, i)})
 RFind(x, n, p) == MaxOr({i \in 0..Min2(IF p < 0 THEN Len(x) ELSE p, Len(x) - Len(n)) : MatchAt(x, n, i)})
-FindFirstOf(x, n, p)    == MinOr({i \in p..(Len(x) - 1) : x[i + 1] \in Chars(n)})
-FindFirstNotOf(x, n, p) == MinOr({i \in p..(Len(x) - 1) : x[i + 1] \notin Chars(n)})
-FindLastOf(x, n, p)     == MaxOr({i \in 0..FromEnd(x, p) : x[i + 1] \in Chars(n)})
-FindLastNotOf(x, n, p)  == MaxOr({i \in 0..FromEnd(x, p) : x[i + 1] \notin Chars(n)})
+\* (the character set is bound by LET: TLC then evaluates it once, not once per index - a needle can be the whole content)
+FindFirstOf(x, n, p)    == LET cs == Chars(n) IN MinOr({i \in p..(Len(x) - 1) : x[i + 1] \in cs})
+FindFirstNotOf(x, n, p) == LET cs == Chars(n) IN MinOr({i \in p..(Len(x) - 1) : x[i + 1] \notin cs})
+FindLastOf(x, n, p)     == LET cs == Chars(n) IN MaxOr({i \in 0..FromEnd(x, p) : x[i + 1] \in cs})
+FindLastNotOf(x, n, p)  == LET cs == Chars(n) IN MaxOr({i \in 0..FromEnd(x, p) : x[i + 1] \notin cs})
 StartsWith(x, n) == MatchAt(x, n, 0)
 EndsWith(x, n) == Len(n) <= Len(x) /\ MatchAt(x, n, Len(x) - Len(n))
 Contains(x, n) == \E i \in 0..Len(x) : MatchAt(x, n, i)
@@ -75,14 +77,26 @@ Contains(x, n) == \E i \in 0..Len(x) : MatchAt(x, n, i)
 \* ---------------------------------------------------------------- the source / needle of a call
 FsKinds == {"fs", "fs_pos_cnt", "fs_pos", "fsit", "fs_move"}     \* the argument is the second object o (set to src first)
 IsFs(a) == a.sk \in FsKinds
-WholeKinds == {"cstr", "str", "fs", "fs2", "ilist", "fs_move"}
-PartKinds == {"str_pos_cnt", "str_pos", "fs_pos_cnt", "fs_pos", "fs2_pos_cnt", "fs2_pos"}
+\* Self-aliasing sources: the argument is the object itself (as FixedString: "self", "self_pos_cnt", "self_pos")
+\* or a pointer into its own buffer used as C string ("selfptr" = c_str() + p2, "selfptr_cnt" = (c_str() + p2, c2)).
+\* std::string defines all of these as if the source had been copied before the call, so the meaning is the
+\* ordinary operator with src = the content before the call (resp. the C string that starts at index p2 of it).
+\* The logged src of such a call must be exactly that text (SrcOK): the driver records what the pointer /
+\* reference designated immediately before the call.
+SelfKinds == {"self", "self_pos_cnt", "self_pos", "selfptr", "selfptr_cnt"}
+SelfPtrKinds == {"selfptr", "selfptr_cnt"}
+\* the C string that starts at index k of the buffer holding x \o <<0>>
+CStrAt(x, k) == LET t == SubSeq(x, k + 1, Len(x)) IN SubSeq(t, 1, FirstNul(t))
+SelfSrc(x, a) == IF a.sk \in SelfPtrKinds THEN (IF a.p2 >= 0 /\ a.p2 <= Len(x) THEN CStrAt(x, a.p2) ELSE <<>>) ELSE x
+SrcOK(x, a) == a.sk \in SelfKinds => a.src = SelfSrc(x, a)
+WholeKinds == {"cstr", "str", "fs", "fs2", "ilist", "fs_move", "self", "selfptr"}
+PartKinds == {"str_pos_cnt", "str_pos", "fs_pos_cnt", "fs_pos", "fs2_pos_cnt", "fs2_pos", "self_pos_cnt", "self_pos"}
 ItKinds == {"fsit", "strit", "selfit"}            \* iterator pair first = begin + p2, last = first + c2
 Base(x, a) == IF a.sk = "selfit" THEN x ELSE a.src
 Piece(x, a) ==
    CASE a.sk = "cnt_ch"            -> RepT(a.c2, a.ch)
      [] a.sk = "ch"                -> <<a.ch>>
-     [] a.sk = "cstr_cnt"          -> SubSeq(a.src, 1, a.c2)
+     [] a.sk \in {"cstr_cnt", "selfptr_cnt"} -> SubSeq(a.src, 1, a.c2)
      [] a.sk \in WholeKinds        -> a.src
      [] a.sk \in PartKinds         -> Sub(a.src, a.p2, a.c2)
      [] a.sk \in ItKinds           -> SubSeq(Base(x, a), a.p2 + 1, a.p2 + a.c2)
@@ -93,8 +107,9 @@ CStrKinds == {"cstr", "cstr_cnt"}
 PieceDom(x, a) ==
    /\ (a.sk \in CStrKinds \/ a.op = "sprintf") => NoNul(a.src)
    /\ IsFs(a) => Len(a.src) <= L
+   /\ a.sk \in SelfPtrKinds => a.p2 >= 0 /\ a.p2 <= Len(x)       \* a pointer to a character or to the terminating zero
    /\ CASE a.sk = "cnt_ch"         -> a.c2 >= 0
-        [] a.sk = "cstr_cnt"       -> a.c2 >= 0 /\ a.c2 <= Len(a.src)
+        [] a.sk \in {"cstr_cnt", "selfptr_cnt"} -> a.c2 >= 0 /\ a.c2 <= Len(a.src)
         [] a.sk \in PartKinds      -> a.p2 >= 0 /\ a.p2 <= Len(a.src)
         [] a.sk \in ItKinds        -> a.p2 >= 0 /\ a.c2 >= 0 /\ a.p2 + a.c2 <= Len(Base(x, a))
         [] OTHER                   -> TRUE
@@ -163,6 +178,8 @@ NewO(x, y, a) == IF a.op = "swap" /\ a.tk # "self" THEN x ELSE IF IsFs(a) THEN a
 
 NoInt == 0
 Thrown == -2                                      \* logged instead of a value when the call threw std::exception
+NotCalled == -3                                   \* logged when the driver could not make a self pointer call (pointer behind the
+                                                  \* terminating zero of the real object: always outside Dom, never inside)
 B2I(b) == IF b THEN 1 ELSE 0
 \* integer result (positions with NPos = -1, counts, booleans as 0/1, character codes); compare: sign only
 Ri(x, y, a) ==
@@ -211,7 +228,7 @@ Rs(x, y, a) ==
 ResultOK(x, y, a, ri, rs) ==
    /\ rs = Rs(x, y, a)
    /\ IF a.op = "compare" THEN Sgn(ri) = Ri(x, y, a)
-      ELSE IF a.op \in Mutators THEN ri # Thrown        \* returned *this / iterators of mutators are not claimed
+      ELSE IF a.op \in Mutators THEN ri \notin {Thrown, NotCalled}    \* returned *this / iterators of mutators are not claimed
       ELSE ri = Ri(x, y, a)
 
 \* ---------------------------------------------------------------- actions
@@ -220,12 +237,14 @@ Init == L \in Caps /\ s = <<>> /\ o = <<>> /\ wf = TRUE
 \* a call inside the documented domain: content as std::string cut off at L
 \* ("= TRUE": TLC then evaluates Dom as an expression; as an action conjunct its \A over a long text recurses per element)
 Step(a) == /\ Dom(s, o, a) = TRUE
+           /\ SrcOK(s, a)
            /\ s' = NewS(s, o, a)
            \* a moved-from object is "valid but unspecified" for std::string: unchanged or empty are both accepted
            /\ IF a.sk = "fs_move" THEN o' \in {a.src, <<>>} ELSE o' = NewO(s, o, a)
            /\ UNCHANGED L
 \* a call outside the domain: any content of at most L characters (ns, no chosen by the environment)
 WildCall(a, ns, no) == /\ Dom(s, o, a) = FALSE
+                   /\ SrcOK(s, a)
                    /\ s' = ns /\ o' = no
                    /\ UNCHANGED L
 
